@@ -28,18 +28,23 @@ FLOORS = {"has-dict-options": 0.35}
 @st.composite
 def cases(draw, tier="quick"):
     universe = draw(gen.key_universe(gen.ASCII_KEY_POOLS, min_size=2, max_size=6))
-    extra = ["n_1", "n_2", "n_30", "n_1x", "m_2", "1", "22", "usd$", "usd$_old", "^x", "a^x", "x$"]
+    extra = ["n_1", "n_2", "n_30", "n_1x", "m_2", "1", "22", "usd$", "usd$_old", "^x", "a^x", "x$", "N_1", "N_2", "A", "B"]
     uni2 = universe + [k for k in extra if draw(st.integers(0, 2)) == 0]
     big = tier == "thorough"
     samples = draw(st.one_of(gen.dictlike_samples(universe), gen.dictlike_samples(universe),
                              gen.sample_lists(uni2, max_samples=6 if big else 4, max_leaves=12 if big else 8)))
     if draw(st.booleans()):
         samples = samples + draw(gen.dictlike_samples(universe))
+    if draw(st.integers(0, 7)) == 0:
+        # a mapping whose values compare equal across types (1, 1.0, True): T has to admit every one of them
+        vals = draw(st.permutations([1, 1.0, True, 0, 0.0]))[:draw(st.integers(2, 4))]
+        samples = samples + [{universe[0]: {"n_%d" % (i + 1): v for i, v in enumerate(vals)}}]
     dkr = draw(st.lists(st.sampled_from(gen.REGEX_POOL + [universe[0], r"[a-z]", r"n_\d", r"\w+\$", r"usd\$", r"\^x", r"\^?x\$?", r"x\$"]),
                         max_size=3, unique=True))
     dkf = draw(st.lists(st.sampled_from(uni2), max_size=3, unique=True))
     opts = {"dkr": dkr, "dkf": dkf, "merge": draw(gen.merge_policies()), "sreg": draw(gen.sregs()),
-            "cli_form": draw(st.booleans()), "ordered_dict": draw(st.sampled_from([False, False, False, True]))}
+            "cli_form": draw(st.booleans()), "ordered_dict": draw(st.sampled_from([False, False, False, True])),
+            "ignorecase": draw(st.sampled_from([False, False, False, True]))}
     return {"samples": samples, "opts": opts}
 
 
@@ -47,7 +52,8 @@ def valid(case):
     o = dict(case.get("opts") or {})
     cf = o.pop("cli_form", False)
     od = o.pop("ordered_dict", False)
-    if not isinstance(cf, bool) or not isinstance(od, bool):
+    ic = o.pop("ignorecase", False)
+    if not isinstance(cf, bool) or not isinstance(od, bool) or not isinstance(ic, bool):
         return False
     for x in o.get("dkr") or []:
         if "|" in x:
@@ -75,6 +81,11 @@ def compiled(opts):
         pats = list(cli.dict_keys_regex)
         fields = list(cli.dict_keys_fields)
         ref = [lambda k, r=r: re.fullmatch(r, k) is not None for r in opts["dkr"]]
+    elif opts.get("ignorecase"):
+        # library form with precompiled, flagged patterns ("List of RegExpressions (compiled or not)")
+        pats = [re.compile(r, re.IGNORECASE) for r in opts["dkr"]]
+        fields = list(opts["dkf"])
+        ref = [lambda k, r=r: re.match(r, k, re.IGNORECASE) is not None for r in opts["dkr"]]
     else:
         pats = list(opts["dkr"])
         fields = list(opts["dkf"])
